@@ -15,7 +15,8 @@ MANIFEST = dict(
          "3 polling intervals (deadline invariant over the unhandled consumer's program counter). Capable consumers and request waiters are adversarially timed in the "
          "model, which covers all wake-up orders, jitter and any number of waiters. Tie = trace validation: the real task set started by GeckoAsyncSpa._connect on the "
          "virtual-time loop, queue instrumented from outside, arrival scripts of known / unknown / unsolicited / mis-addressed / malformed datagrams; every observed "
-         "put / pop / mark / unhandled-consumer step must be enabled in the model and have the model's outcome.",
+         "put / pop / mark / unhandled-consumer step must be enabled in the model and have the model's outcome."
+         " Since session 3: the connection's packet consumer is also modelled at the byte level as the long-lived object it is (Model/PacketConsumer.lean over C04's regex model): consume_eq_spec (over any history and whatever the object held before, what is re-queued is exactly the DATAS of the frames that parse and carry this connection's address and identifier pair), misaddressed_frame_no_effect / addressed_frame_requeued for arbitrary payloads; tied by feeding histories to the real handler + the real _async_on_packet exactly as consume() does, plus a re-queue conservation monitor on the whole task set.",
     note="partial: the head-of-line bound is proved under the fairness hypothesis 'the unhandled consumer runs when its 100 ms timer is due' (no event-loop stall; "
          "real timer skew is outside); the safety clauses need no such hypothesis. Trusted: Lean kernel; asyncio semantics (no pre-emption between awaits); the harness "
          "instrumentation (monkeypatched AsyncPeekableQueue recording caller frames). A consumer whose async_handle raises on a malformed body dies (Python task semantics); "
